@@ -37,7 +37,8 @@ class Lin:
         if k == "Local":
             d = self.canon.defs.get(n["lid"])
             if d is not None and d[0] == "let" and not d[3] and n["lid"] not in self.canon.assigned \
-                    and not d[2] and depth < 8 and self.canon._simple(d[1]):
+                    and not d[2] and depth < 8 and self.canon._simple(d[1]) and \
+                    (self.canon.inline_state or not self.canon._mutated_between(d[1], d[1]["sp"][1], n)):
                 return self.of(d[1], depth + 1)
             return self.atom(n)
         if k == "Cast":
